@@ -1,8 +1,8 @@
 (* C14 - Maintenance operations are idempotent and always converge to the batch state.
    Proved here: purge removes every entry the indicator tree wrote - helper series at any
    depth included - and nothing else; for leaf indicators that are pure and causal (the
-   obligations are discharged in Props/C01.v for HLA, TR, OBV, EMA, SMA, RMA, WMA, ROC,
-   Counter and the Amorph wrappers): calculate() again changes nothing, recalculate()
+   obligations are discharged in Props/C01.v for HLA, TR, OBV, EMA, SMA, RMA, WMA, VWMA,
+   ROC, Counter, HL, Donchian, AROON and the Amorph wrappers): calculate() again changes nothing, recalculate()
    reproduces exactly the store it replaced, and recomputing an index that already holds a
    reading - by its positive or its negative index - leaves the store as it was.  For
    composite indicators and whole operation programs: correspondence + falsifier. *)
